@@ -400,9 +400,27 @@ func (fr *Frame) enterLoop(li *loopInfo, b *ssa.BasicBlock, st *State, in []edge
 	// havoc what the loop may write
 	hs := st.clone()
 	ws := fr.writeSet(li)
+	lws := u.localWrites
 	if ws["*"] {
-		u.havocAll(hs)
+		fr.havocAllKeepLocals(hs)
 	} else {
+		// local variables allocated before the loop and assigned in it: only their own location is havocked
+		for _, lw := range lws {
+			base, ok := fr.vals[lw.alloc]
+			if !ok || base.Sort != SRef {
+				// not executed yet / not a plain object: fall back to the whole components
+				u.sortsIn(lw.typ, "H_", ws)
+				continue
+			}
+			addr := base
+			ct := lw.alloc.Type().Underlying().(*types.Pointer).Elem()
+			for _, i := range lw.path {
+				si := u.sorts.structOf(ct)
+				addr = Val{T: u.mkSub(addr.T, i), Sort: SRef, FBase: addr.T, FStruct: ct, FIdx: i}
+				ct = si.fields[i].typ
+			}
+			u.havocPtr(hs, addr, lw.typ)
+		}
 		var evs []string
 		for _, c := range sortedKeys(ws) {
 			if strings.HasPrefix(c, "ev:") {
@@ -535,12 +553,12 @@ func (u *Unit) havocAll(st *State) {
 	// the ghost event trace is not part of the heap: it survives (events of a callback are the callback's own)
 	keep := map[string]Term{}
 	for k := range u.compSort {
-		if k == "clock" || strings.HasPrefix(k, "cnt_") || strings.HasPrefix(k, "arg_") || strings.HasPrefix(k, "at_") {
+		if isGhostTrace(k) {
 			keep[k] = u.get(st, k)
 		}
 	}
 	for k, v := range st.comp {
-		if k == "clock" || strings.HasPrefix(k, "cnt_") || strings.HasPrefix(k, "arg_") || strings.HasPrefix(k, "at_") {
+		if isGhostTrace(k) {
 			keep[k] = v
 		}
 	}
@@ -549,4 +567,72 @@ func (u *Unit) havocAll(st *State) {
 	n := u.fresh("alloc", "Int")
 	u.assume("(>= " + n + " " + a + ")")
 	st.comp["alloc"] = n
+}
+
+// escapes reports whether the address of a local variable leaves the function (is passed, stored, returned or
+// converted); only then can a callee change it.
+func allocEscapes(a *ssa.Alloc) bool {
+	seen := map[ssa.Value]bool{}
+	var visit func(v ssa.Value) bool
+	visit = func(v ssa.Value) bool {
+		if seen[v] {
+			return false
+		}
+		seen[v] = true
+		refs := v.Referrers()
+		if refs == nil {
+			return true
+		}
+		for _, r := range *refs {
+			switch x := r.(type) {
+			case *ssa.UnOp:
+				// load
+			case *ssa.Store:
+				if x.Val == v {
+					return true
+				}
+			case *ssa.FieldAddr:
+				if visit(x) {
+					return true
+				}
+			case *ssa.DebugRef:
+			default:
+				return true
+			}
+		}
+		return false
+	}
+	return visit(a)
+}
+
+// havocAllKeepLocals havocs the whole heap (an unspecified callee) but keeps the contents of the local variables
+// of the current activations whose address never escapes: no callee can reach them.
+func (fr *Frame) havocAllKeepLocals(st *State) {
+	u := fr.u
+	type saved struct {
+		addr Term
+		typ  types.Type
+		val  Term
+	}
+	var keep []saved
+	for f := fr; f != nil; f = f.parent {
+		for _, b := range f.fn.Blocks {
+			for _, ins := range b.Instrs {
+				a, ok := ins.(*ssa.Alloc)
+				if !ok {
+					continue
+				}
+				v, done := f.vals[a]
+				if !done || v.Sort != SRef || allocEscapes(a) {
+					continue
+				}
+				et := a.Type().Underlying().(*types.Pointer).Elem()
+				keep = append(keep, saved{v.T, et, u.def("keep", u.sorts.sortOf(et), u.load(st, v.T, et))})
+			}
+		}
+	}
+	u.havocAll(st)
+	for _, k := range keep {
+		u.storeTo(st, k.addr, k.typ, k.val)
+	}
 }
